@@ -163,6 +163,11 @@ def impl_validate(flumine_mods, c_code, mbv, o, simulated=False):
         client.update_account_details()
     else:
         client = BetfairClient(mock.Mock(lightweight=False), min_bet_validation=mbv)
+        import zlib
+        if zlib.crc32(repr(sorted(o.items(), key=str)).encode()) & 1:
+            # the usual live sequence: the client exists (and is asked for its minimums, e.g. by a first validation or a log line)
+            # before the account details have arrived; what counts for an order is the currency known when IT is validated
+            _ = (client.min_bet_size, client.min_bet_payout, client.min_bsp_liability)
         client.account_details = AccountDetails(currencyCode=c_code, discountRate=0)
     order.update_client(client)
     ctrl = OrderValidation(mock.Mock())
